@@ -67,6 +67,8 @@ func loadSpecLib(dir string) (*SpecLib, error) {
 				return 3
 			case "plain.smt2":
 				return 4
+			case "encode.smt2":
+				return 6
 			case "axioms.smt2":
 				return 8
 			case "lemmas.smt2":
